@@ -30,16 +30,17 @@ RULE = ("Seeded worlds (Brownian / Heston / Merton / Kou / local-volatility unde
 COMPONENTS = {"real": ["pfhedge.nn.functional bs_* functions through BlackScholes modules, WhalleyWilmott, Hedger, listed-derivative pricers, pl"],
               "stub": ["market shocks / flat markets written by the simulator", "certain-payoff reference at expiry"]}
 ASSUMPTIONS = ["price at expiry compared with the certain payoff within 1e-6 (float32) / 1e-12 (float64) relative to strike scale; paths whose "
-               "terminal (resp. extreme) price is within 1e-6 relative of the strike are skipped for binaries",
+               "terminal (resp. extreme) price has a computed log-moneyness of exactly zero are skipped for binaries (one representable price away from the strike the payoff is certain and is decided)",
                "stand-alone limit clauses of the property are not decided (partial claim)"]
-PROBES = ["negative_argument_rejected", "hedging_run_aborted", "volatility_changed_on_live_stock", "flat_market", "shocked_far_from_strike", "maturity_price_is_payoff", "bs_hedger", "ww_hedger", "bound_price", "bound_delta",
+PROBES = ["one_representable_price_from_the_strike", "negative_argument_rejected", "hedging_run_aborted", "volatility_changed_on_live_stock", "flat_market", "shocked_far_from_strike", "maturity_price_is_payoff", "bs_hedger", "ww_hedger", "bound_price", "bound_delta",
           "listed_hedge_pl", "put", "cost_positive", "large_dt", "tiny_dt", "delta_limit_checked"]
 KINDS = ["EuropeanOption", "EuropeanBinaryOption", "AmericanBinaryOption", "LookbackOption"]
 
 
 REJECT_FORMS = ["d1_t_tensor", "d1_v_tensor", "d2_t_tensor", "d2_v_tensor", "d1_t_float", "d1_v_float", "d2_v_float", "d1_t_int",
                 "european_price_v", "european_delta_t", "binary_price_v", "binary_delta_t", "lookback_price_v", "american_price_v",
-                "module_price_t", "module_delta_v", "module_forward_v", "ww_forward_t"]
+                "module_price_t", "module_delta_v", "module_forward_v", "ww_forward_t",
+                "d1_t_tiny", "d2_t_tiny64", "european_price_t_tiny", "binary_delta_t_tiny", "module_price_t_tiny", "ww_forward_t_tiny"]
 
 
 def _reject_probe(form, d):
@@ -77,8 +78,21 @@ def _reject_probe(form, d):
         return F.bs_lookback_price(s, s.clamp(min=0), pos, neg_v, 1.0)
     if form == "american_price_v":
         return F.bs_american_binary_price(s, s.clamp(min=0), pos, neg_v)
+    tiny = torch.tensor(-1e-8)            # negative, but below one float32 ulp of 1: still negative
+    if form == "d1_t_tiny":
+        return F.d1(s, tiny, vol)
+    if form == "d2_t_tiny64":
+        return F.d2(s.double(), torch.tensor(-1e-17, dtype=torch.float64), vol.double())
+    if form == "european_price_t_tiny":
+        return F.bs_european_price(s, tiny, vol)
+    if form == "binary_delta_t_tiny":
+        return F.bs_european_binary_delta(s, tiny, vol)
     from pfhedge.instruments import BrownianStock, EuropeanOption
     eo = EuropeanOption(BrownianStock())
+    if form == "module_price_t_tiny":
+        return pfn.BlackScholes(eo).price(s, tiny.expand(3), vol.expand(3))
+    if form == "ww_forward_t_tiny":
+        return pfn.WhalleyWilmott(eo)(torch.stack([s, -1e-8 * torch.ones(3), 0.2 * torch.ones(3), torch.zeros(3)], -1))
     if form == "module_price_t":
         return pfn.BlackScholes(eo).price(s, neg_t.expand(3), vol.expand(3))
     if form == "module_delta_v":
@@ -141,8 +155,12 @@ def generate(rng):
         elif k == "bound":
             ops.append({"op": "bound", "target": rng.choice(["d0", "d1"]), "method": rng.choice(["price", "price", "delta"])})
         elif k == "shock":
-            ops.append({"fault": "shock", "kind": rng.choice(["jump", "crash", "last_step_jump", "to_strike"]), "t": rng.randint(1, max(1, steps)),
+            ops.append({"fault": "shock", "kind": rng.choice(["jump", "crash", "last_step_jump", "to_strike", "next_to_strike", "next_to_strike"]), "t": rng.randint(1, max(1, steps)),
                         "factor": rng.choice([1.8, 3.0, 0.5, 0.3])})
+            if ops[-1]["kind"] == "next_to_strike":
+                ops.append({"op": "bound", "target": "d0", "method": "price"})
+                if rng.chance(0.5):
+                    ops.append({"op": "bound", "target": "d0", "method": "delta"})
         elif k == "listed_pl":
             ops.append({"op": "listed_pl", "which": rng.choice(["naked", "bs"])})
         else:
@@ -166,7 +184,9 @@ def certain_payoff(kind, call, K, spot):
         v = (ST - K).clamp(min=0) if call else (K - ST).clamp(min=0)
         return v, torch.ones_like(ST, dtype=torch.bool)
     if kind == "EuropeanBinaryOption":
-        away = ((ST - K).abs() > 1e-6 * K)
+        # decided wherever the log-moneyness the library computes (in the series' dtype) is not exactly zero - one representable
+        # price away from the strike the payoff is certain
+        away = (spot[:, -1] / K).log() != 0
         v = ((ST >= K) if call else (ST <= K)).double()
         return v, away
     mx = spot.double().max(dim=1).values
@@ -174,7 +194,7 @@ def certain_payoff(kind, call, K, spot):
         # a running maximum exactly on a strike that is representable in the dtype means the barrier HAS been reached:
         # the payoff is 1 for sure (typical: initial spot = strike and the path never trades above it)
         exact = (mx == K) & bool(float(torch.tensor(K, dtype=torch.float64).to(spot.dtype).double()) == float(K))
-        away = ((mx - K).abs() > 1e-6 * K) | exact
+        away = ((spot.max(dim=1).values / K).log() != 0) | exact
         return (mx >= K).double(), away
     if kind == "LookbackOption":
         return (mx - K).clamp(min=0), torch.ones_like(ST, dtype=torch.bool)
@@ -285,6 +305,16 @@ def _one_op(op, world, program, stats, hist, p0, dspecs, flat, pkind, dtv, shock
                     spot[:, t:] *= 0.1
                 elif op["kind"] == "last_step_jump":
                     spot[:, -1] *= op["factor"]
+                elif op["kind"] == "next_to_strike":
+                    # the last column a few representable prices above / below the strike: the payoff is certain there
+                    Kt = torch.tensor(dspecs["d0"]["params"]["strike"], dtype=spot.dtype)
+                    k_ulps = [1, 1, 2, 4][int(op["factor"] * 10) % 4]
+                    up = op["t"] % 2 == 0
+                    x = Kt.clone()
+                    for _ in range(k_ulps):
+                        x = torch.nextafter(x, torch.tensor(float("inf") if up else 0.0, dtype=spot.dtype))
+                    spot[:, -1] = x
+                    stats.probe("one_representable_price_from_the_strike")
                 else:
                     spot[:, t] = dspecs["d0"]["params"]["strike"]
             stats.fault("F9_market_data_fault")
@@ -413,13 +443,13 @@ def _one_op(op, world, program, stats, hist, p0, dspecs, flat, pkind, dtv, shock
                 K_ = sp["params"]["strike"]
                 call_ = sp["params"]["call"]
                 if sp["kind"] == "EuropeanOption":
-                    off_kink = lm.abs() > 1e-6
+                    off_kink = lm != 0
                     lim = ((lm > 0).double() if call_ else -(lm < 0).double())
                 elif sp["kind"] == "EuropeanBinaryOption":
-                    off_kink = lm.abs() > 1e-6
+                    off_kink = lm != 0
                     lim = torch.zeros_like(lm)
                 elif sp["kind"] == "AmericanBinaryOption":
-                    off_kink = (lm.abs() > 1e-6) | (mlm >= 0)
+                    off_kink = (lm != 0) | (mlm >= 0)
                     lim = torch.zeros_like(lm)
                 else:  # LookbackOption: the certain payoff max(M - K, 0) does not move with the spot while S < M
                     off_kink = (mlm - lm) > 1e-6
